@@ -174,6 +174,10 @@ M = [
       old="    pub const fn from_le_slice(bytes: &[u8]) -> Self {\n        assert!(\n            bytes.len() == Limb::BYTES * LIMBS,\n            \"bytes are not the expected size\"\n        );\n",
       new="    pub const fn from_le_slice(bytes: &[u8]) -> Self {\n",
       expect="c16.twins|uint::encoding::<impl uint::Uint<_>>::from_be_slice"),
+ dict(name="boxed_adc_assign_debug_only_width_check", prop="C04", file="src/uint/boxed/add.rs",
+      old="        assert!(\n            self.bits_precision() >= (rhs.as_ref().len() as u32 * Limb::BITS),\n            \"`rhs` has a larger precision than `self`\"\n        );",
+      new="        debug_assert!(self.bits_precision() >= (rhs.as_ref().len() as u32 * Limb::BITS));",
+      expect="c04.docpanic|uint::boxed::add::<impl uint::boxed::BoxedUint>::adc_assign"),
  # --- C19
  dict(name="random_mod_core_polarity", prop="C19", file="src/uint/rand.rs",
       old="        if n.ct_lt(modulus).into() {\n            break;", new="        if !bool::from(n.ct_lt(modulus)) {\n            break;",
